@@ -107,7 +107,9 @@ class World:
                 return probs
             self.n_fresh += 1
             torch.manual_seed(9000 + self.n_fresh)  # "whatever its fresh initial values"
-            fresh = Compiled(self.pipe.circuits, *self.flags, compile_only=[0] + self.targets)
+            # L: only the operand exists when the snapshot is loaded; the derived circuits are compiled afterwards in
+            #    the same context (lazily, on evaluation). LD: everything is compiled first, then the derived dict is loaded.
+            fresh = Compiled(self.pipe.circuits, *self.flags, compile_only=[0] if ev == "L" else [0] + self.targets)
             try:
                 if ev == "L":
                     res = fresh.cc(self.pipe.circuits[0]).load_state_dict(self.snapshot, strict=True)
